@@ -1,11 +1,11 @@
 SPECIFICATION Spec
-CONSTANT Callers <- Callers3
-CONSTANT Unit <- Unit3
-CONSTANT Mode <- Mode3
-CONSTANT ExcOn <- ExcAll3
-CONSTANT Cancellable <- CancelAB
+CONSTANT Callers <- CallersP
+CONSTANT Unit <- UnitP
+CONSTANT Mode <- ModeP
+CONSTANT ExcOn <- ExcAllP
+CONSTANT Cancellable <- NoCancel
 CONSTANT MaxLoss = 0
-CONSTANT MaxSeq = 3
+CONSTANT MaxSeq = 4
 CONSTANT FixedCancel = TRUE
 CONSTANT Limit <- NoLimit
 CONSTANT PowerLocked = TRUE
